@@ -55,7 +55,8 @@ def cases(tier, seed, info):
                         items.append(dict(t='src', creator=creator, ref=ref, beh=beh, plugins=plugins, k=rep))
         for a in ('BD8DAA', 'BC8AAA', 'BD8DBB', 'BD8DCC', '1100AA', 'BC8ACC'):
             for b in ('BD8DAA', 'BC8AAA', 'BD8DBB', 'BD8DCC', 'BC8ABB'):
-                items.append(dict(t='src2', a=a, b=b, k=rep))
+                for beh_a in ((0, 3, 4, 5) if rep == 0 else (0, 1 + rep % 5)):
+                    items.append(dict(t='src2', a=a, b=b, beh_a=beh_a, k=rep))
         for sub in (72, 73, 84, 1, 99):
             for ver in (1, 2, 0, 3):
                 for L in (0, 1, 8, 24, 40, 100):
@@ -232,10 +233,15 @@ def _src2(rng, it):
     seams.install_fixture_plugins()
     log = seams.install_import_recorder()
     secs, asciis, present = [], [], []
+    # the FIRST parser consulted may misbehave in every way (word 2 selects the fixture's behaviour: 0 ok, 1 null,
+    # 2 empty, 3 raises, 4 raises ModuleNotFoundError from a lazy import, 5 raises without text); the second is
+    # well behaved - what the first one does must not reach it
+    beh_a = it['beh_a']
     for sid, ref in (('PS', it['a']), ('SS', it['b'])):
         s = genpel.gen_src(rng, sid, ncallouts=-1)
         s['ascii'] = encode.text(ref + '%02X' % rng.randrange(256), 32, 0x20)
-        s['words'][0][3] &= 0xF0
+        s['words'][0][3] = (s['words'][0][3] & 0xF0) | (beh_a if sid == 'PS' else 0)
+        s['wc'] = 9          # (with fewer valid words the parser is handed zeros, which selects behaviour 0)
         secs.append(s)
         asciis.append(s['ascii'])
         present.append(ref[:2] == 'BC' or ref[4:6] in ('AA', 'BB'))
@@ -247,7 +253,16 @@ def _src2(rng, it):
     res = pelrun.decode(encode.encode(pel), True)
     imports = [n for n in log if n.split('.')[0] == 'srcparsers']
     calls = [c[1] for c in verif_fixture.CALLS if c[0] == 'src']
+    details = []
+    if res['doc'] is not None:
+        details = ['SRC Details' in e for e in list(res['doc'].values())[2:4]]
+    # oaa00 / bsrc are programmable, obb00 always raises: which SRC must come with details
+    want = []
+    for k, ref in enumerate((it['a'], it['b'])):
+        served = ref[:2] == 'BC' or ref[4:6] == 'AA'
+        want.append(bool(served and (beh_a == 0 if k == 0 else True)))
     return dict(family='C18', kind='src2', shape_ok=res['doc'] is not None, plugins=True, asciis=asciis,
+                details=details, want_details=want, beh_first=beh_a,
                 present=present, imports=[project.cp(n) for n in imports],
                 call_mods=[project.cp('srcparsers.%s.%s' % (c, c)) for c in calls], what=it['a'] + '+' + it['b'],
                 beh='-', calls=calls)
